@@ -101,6 +101,29 @@ CLAIMED = {
    ref="DESIGN.md section 3 E2/E7 (AG9, BD1), section 4 C03"),
 }
 
+# Rules added after the entries above were written (seed rounds 2-3, refactoring batches, mutation experiment).
+ADDENDA = {
+ "C01": " Also: a state slot accessed through sync/atomic is synchronised separately (AT3).",
+ "C02": " Also: re-acquisition, balance and escape rules (LK2/LK3/LK5) and AT3.",
+ "C03": " Also: who may write, overwrite a slot of, re-sift or hand out h.data (AG1); getIndex returns the index it compared equal; Push returns only after every argument was pushed; Delete refuses only an absent value or an empty heap; the bottom-up pass of FromSlice/Convert starts at or above the last internal node; sift functions are recognised in recursive and loop form.",
+ "C04": " Also: delete hands n back only after a recursive delete below it whose verdict it returns; each of the four shapes of the key-holding node (Left/Right nil or not) reaches only its own return and the successor lookup needs a right subtree; Delete's verdict comes from the descent; get in recursive or loop form.",
+ "C05": " Also: no element of items is overwritten in place and items is not handed to other functions; the linked list is changed only by the insertion, the removal and Clear (judged by the callee's effect: DList.Each rewrites the head); the linked Search answers what Find found; state inventory over list.DList.",
+ "C06": " Also: no element of items is overwritten in place and items is not handed to other functions; the linked list is changed only by the insertion, the removal and Clear (by effect); the linked Search answers what Find found; state inventory over list.DList.",
+ "C07": " Also: a node's key is written only where the node is created and its value there and in Add; thin wrappers (moveFront, addFront, removeLast) are looked through whether or not they exist.",
+ "C08": " Also: the store primitive is reached only through Set's liveness test, add and Update (AG1); a rejected store leaves no trace (ER5); predicate closures (maps.DeleteFunc) are decided like the loop they replace.",
+ "C09": " Also: completeness of AG2 (a found terminal node is always reported); put's terminal branch stores the caller's value; key/value of a node are written only by put; Keys/StartsWith empty the shared queue before collecting.",
+ "C10": " Also: split conservation (entry count halved, upper half copied unconditionally), complete entry scans that end only through their own test, who-writes rules for entries and root.",
+ "C11": " Also: Flatten/Union report an error only for an unsupported value or a failed recursion; reachability and dominance are decided through found-flags (jump threading).",
+ "C12": " Also: the cells Shuffle swaps lie inside the copy (BD1); side paths around a scan through helpers are reported.",
+ "C13": " Also (supersedes 'Range not decided'): everything Range decides before its first iteration - rejection, which loop, start, bound, amount moved - is tabulated over representatives of every order type of its arguments in [-3,3] against the statement, the loops append one value derived from the counter per iteration, RangeRight passes arguments and error through and reverses; the running extremum is seeded with s[0] (ByKey: with the first map's value, updated with the compared value, selector k == key); comparison-only helpers called from comparison-only functions are interpreted in turn. Strictness is required only under a key function.",
+ "C14": " Also: FindKey returns the key of the entry on the edge where fn(v) held (per return alternative).",
+ "C16": " Also: OW4 no helper re-slices an argument up to its capacity and writes or returns that part; GS1/GS2 no mutable package-level state (pools, scratch buffers), no goroutines.",
+ "C17": " Also: the flight group is used through Do only (Forget/DoChan are reported); Set's liveness test (an expired, unswept entry must be replaceable).",
+ "C18": " Also: Before runs its callback only where the decremented counter is known >= 0 and After only where the counter is known <= 0 (threshold side); without a fresh run Before/Once return Val() of the looked-up item; Retry rejects only a negative count; the cache below agrees on 'expired' and Set stores over expired entries.",
+ "C20": " Also: GG2 a permission is consumed and Next answers true only under !stop tested after the last cond.Wait; GG3 a permission is granted at once only after the period elapsed and deferred only inside it, in trailing mode, announced after duration - elapsed; CV4 only Call and Cancel signal the condition variable.",
+}
+NORMALISATION_NOTE = " Before every analysis a normalisation pass brings a changed tree back to the confirmed function inventory without changing behaviour (new unexported helpers inlined, renamed helpers/parameters/fields/types restored, vanished helpers re-declared, pure helpers inlined at new call edges; identity on the unchanged tree; DESIGN.md section 13). Constructs outside the accepted forms, lost anchors and aborted rule evaluations are reported as undecided (exit 1, VIOLATION)."
+
 NOT_YET = "check not built yet (static-analysis engines under construction; see DESIGN.md section 7)"
 NA = {
  "C19": "sequence semantics of by-value-head linked lists need a shape analysis (list-segment abstraction); nothing of that kind is installed or buildable here and weaker structural proxies false-alarm on today's test-passing code (DESIGN.md section 4 C19)",
@@ -120,7 +143,7 @@ def main():
               "evidence_file":"/verif/evidence/%s.json"%i,
               "replay_cmd_template":"/verif/bin/gogucheck -property %s -replay {path}"%i,
               "engine":"gogucheck",
-              "level_claimed":{"category":"other","text":c["text"],"design_ref":c["ref"]},
+              "level_claimed":{"category":"other","text":c["text"]+ADDENDA.get(i,""),"design_ref":c["ref"]+", sections 9, 11, 13, 14"},
               "level_note":c["note"],
               "technique":c["technique"],
             })
@@ -132,7 +155,7 @@ def main():
      "hooks":{"guard":"verif","enable":"none needed: static analysis reads the unmodified source; no hook commits exist","baseline_off_cmd":"cd /repo && GOFLAGS=-mod=mod GOPROXY=off go test -vet=off -count=1 ./...","source_commits":[],"add_only":True},
      "engines":[{"name":"gogucheck","path":"/verif/checker","serves_properties":sorted(CLAIMED),"kind_free_text":"custom static analyser over go/packages + go/ssa (x/tools v0.29.0): lockset/ownership abstract interpretation, path rules on the SSA CFG, provenance/effect dataflow, finite order abstraction, sibling-agreement rules"}],
      "checks":checks,
-     "notes":"Static analysis only (no execution of the library, no solver). Every check loads /repo's current working tree, evaluates repo-specific structural rules, writes evidence/<id>.json and prints VIOLATION on an undischarged obligation that known_findings.json does not list. thorough = quick + self-validation of the rules against seeded source variants applied through a go/packages overlay (nothing is written to /repo).",
+     "notes":"Static analysis only (no execution of the library, no solver). Every check loads /repo's current working tree, evaluates repo-specific structural rules, writes evidence/<id>.json and prints VIOLATION on an undischarged obligation that known_findings.json does not list. thorough = quick + self-validation of the rules against seeded source variants applied through a go/packages overlay (nothing is written to /repo), the kept sub-agent changes of /verif/seeded and the behaviour-preserving refactorings of /verif/refactorings (informational)." + NORMALISATION_NOTE,
      "not_applicable":na,
     }
     json.dump(m,open('/verif/MANIFEST.json','w'),indent=1)
